@@ -5,6 +5,12 @@ const fs = require('fs');
 const path = require('path');
 const readline = require('readline');
 
+// Orphan guard: a generated program may spin forever inside vm; if the harness that owns this process dies,
+// nobody is left to kill it. A worker thread notices the re-parenting and kills the process.
+try {
+  new (require('worker_threads').Worker)('const pp = ' + process.ppid + '; setInterval(() => { if (process.ppid !== pp) process.kill(process.pid, "SIGKILL"); }, 2000);', { eval: true }).unref();
+} catch (_) {}
+
 const hasSTM = typeof vm.SourceTextModule === 'function';
 
 function errClass(e) {
